@@ -35,6 +35,7 @@ class Fn:
         self.name, self.ret, self.params, self.variadic, self.attrs, self.static = name, ret, params, variadic, attrs, static
         self.cb = None
         self.arrparam_ = False
+        self.tp_ptr = False
 
 
 class Lib:
@@ -168,6 +169,9 @@ def generate(rng, nfn=None, static_only=False, cxx=False):
             lib.uses_nrh = True
         if fn.params and not fn.cb and not fn.variadic and rng.random() < 0.3:
             fn.unnamed = set(j for j in range(len(fn.params)) if rng.random() < 0.5)
+        if not fn.static and not cxx and rng.random() < (0.5 if fn.variadic else 0.1):
+            # a global pointer whose type is only spelled `__typeof__(fn) *`: its binding must carry the function's own signature
+            fn.tp_ptr = True
         lib.fns.append(fn)
     if not static_only and not cxx and rng.random() < 0.3:
         # a function that does not return: the Rust driver calls it last; the callee prints what arrived and leaves through _exit(0)
@@ -245,6 +249,8 @@ def header(lib, static_bodies=False, cxx=False):
             out.append("static %s%s %s" % (inl, fn_proto(fn, lib), static_body(fn, lib)))
         else:
             out.append("%s%s;" % (fn_proto(fn, lib, decl_only=True), fn.attrs))
+            if fn.tp_ptr:
+                out.append("extern __typeof__(%s) *%s_tp;" % (fn.name, fn.name))
     for n, t, const in lib.globals:
         out.append("extern %s%s;" % (global_decl(n, t, const), (' __asm__("%s")' % lib.glabels[n]) if n in lib.glabels else ""))
     text = "\n".join(out) + "\n"
@@ -390,6 +396,8 @@ def impl_c(lib, header_name="h.h"):
                                                "return " if fn.ret else "", fn.name, args.lstrip(", ")))
             continue
         out.append("%s {\n%s}" % (fn_proto(fn, lib), callee_body(fn, lib)))
+        if fn.tp_ptr:
+            out.append("__typeof__(%s) *%s_tp = %s;" % (fn.name, fn.name, fn.name))
     for n, t, const in lib.globals:
         if t.kind == "record":
             init = "{0}"
@@ -516,6 +524,8 @@ def emit_rs(lib, view, bindings_path, link_names, call_static=False):
         elif it["kind"] == "fn":
             fnames.add(it["name"])
     last_call = []
+    statics_early = set(m["name"] for it in view.inv["items"] if it["kind"] == "extern_block" for m in it["members"] if m["kind"] == "foreign_static")
+    out.append("fn vf_same<T: Copy>(_a: T, _b: T) {}")
     for fn in lib.fns:
         if fn.name not in fnames:
             info["skipped"].append((fn.name, "no binding"))
@@ -549,6 +559,11 @@ def emit_rs(lib, view, bindings_path, link_names, call_static=False):
         if fn.variadic:
             args += ["7i32", "2.5f64", "-9i64"]
         main += pre
+        if fn.tp_ptr and (fn.name + "_tp") in statics_early and fabi.get(fn.name) == ("win64" if getattr(fn, "abi", None) == "ms_abi" else "C"):
+            # (an --override-abi pattern naming the function re-declares the function, not the pointer: compared only without one)
+            # same type as the function itself (rustc decides), and a call through it arrives like a direct call
+            main.append('    vf_same(%s_tp.expect("null fn pointer"), %s as _);' % (fn.name, fn.name))
+            info["typeof_pointers"] = info.get("typeof_pointers", 0) + 1
         call = "%s(%s)" % (fn.name, ", ".join(args))
         if fn.ret is None:
             main.append("    %s;" % call)
